@@ -1,7 +1,7 @@
 /-
 Driver/GenOps.lean — judges the op records of generated inspectors and of Assign.
 -/
-import InspectorModel
+import InspectorModel.ForDriver
 import Driver.Parse
 import Std.Data.HashMap
 open Inspector Inspector.Driver
@@ -287,6 +287,9 @@ def opDeq (st : St) (head identToks optToks outToks : List String) : String :=
     match st.types[tid]?, st.vals[va]?, st.vals[vb]?, parseForm fl, parseForm fr, parseOpts optToks, parseDeqOut oab, parseDeqOut oba with
     | some n, some a, some b, some fl, some fr, some opts, some iab, some iba =>
       let ident := identTok == "1"
+      -- hypotheses of C05.deq_correct / deq_symmetric, evaluated on every input with two recognised roots
+      if rootOf fl == .ok && rootOf fr == .ok && !(RootOK n && EmitOK n && PathNamesOK n && MapKeysOK a && MapKeysOK b) then
+        "dev-ok hypothesis RootOK/EmitOK/PathNamesOK/MapKeysOK of deq_correct does not hold for this input" else
       -- the order in which the implementation happened to range over the left operand's maps: the one
       -- (of `mapOrders`) under which the model of the current tree gives the observed answer, if any
       let pick (l r : Val) (f1 f2 : Form) (obs : DeqOut) : Val :=
